@@ -65,6 +65,7 @@ RULE = ("cases = corpus (incl. the F-C02 witness) + N random histories of 1..5 A
         "descending sort with at most one rule per activation group, the one that fires is the first eligible one with a true condition, and the last pass "
         "of a call that returns before the bound fires nothing; a call that returns Err is replayed up to the rule whose action fails (C02.segAcceptErr); execute_workflow is replayed step by step "
         "the same way (C02.segWorkflow, also when it returns Err: the oracle is never blind)) are evaluated on the implementation's observations. "
+        "Further families (N/15, N/25, N/25), shared by C02 and C03 (c02.rs): several-pending-activations histories (2..4 activate_agenda_group calls — same group, different groups, MAIN — interleaved with set_agenda_focus / pop / clear before each execute, rules with true and false conditions in every group: every queued activation is applied before the first pass); caller-owned undo frames (ops Ub / Uc / Ur = facts.begin_undo_frame / commit_undo_frame / rollback_undo_frame around the execute calls, nested, left open, unbalanced; rules that write flat keys, dotted paths of the existing object o0 (O.0 / O.2 -> Facts::set_nested) and of a missing object (O.1): every call returns under the per-case deadline, after a rollback the facts are those observed at the matching begin — clauses rollback_not_restored / frame_call_changed_facts, and the harness compares the complete fact map incl. nested objects: res u!undo); confusable-names histories (agenda groups, activation groups and rule names reach the engine through name tables whose small ids are easy to confuse as strings: prefix relations through / . : blank, the empty string, a group named like a rule, look-alikes of MAIN, case / trailing-blank twins — all distinct names, injectivity asserted at start-up; lock-on-active / no-loop rules in 2..4 such groups, activate one, execute, focus another, come back by pop or by a new activation, execute). "
         "non-trivial = a rule fired whose firing depended on an attribute (no-loop, lock-on-active, activation group, date window, non-MAIN group); "
         "distinct = distinct case text.")
 TRUSTED = [
